@@ -301,8 +301,9 @@ def one_builder(case, rng):
             return [V("builder", "%s/duration-attr" % name, "node %r lacks duration" % (u,), case)]
         if case["tau"] == 0 and case["gamma"] > 0 and H.out_degree(u):
             return [V("builder", "%s/tau-zero-edge" % name, "tau=0 but %r has out-edges" % (u,), case)]
-        if case["gamma"] == 0 and case["tau"] > 0 and H.out_degree(u) != G.degree(u):
-            return [V("builder", "%s/gamma-zero-edge" % name, "gamma=0 but %r keeps %d of %d edges" % (u, H.out_degree(u), G.degree(u)), case)]
+        if case["gamma"] == 0 and case["tau"] > 0 and H.out_degree(u) != len(list(G.neighbors(u))):
+            # neighbours, not degree: networkx counts a self-loop twice in degree()
+            return [V("builder", "%s/gamma-zero-edge" % name, "gamma=0 but %r keeps %d of %d edges" % (u, H.out_degree(u), len(list(G.neighbors(u)))), case)]
     # get_infected_nodes: subset of the component of I0 avoiding R0, contains I0, excludes R0
     I0 = [labels[i] for i in case["I0"]]
     R0 = [labels[i] for i in case["R0"]]
